@@ -23,6 +23,8 @@ Init ==
     frames |-> 0,
     aborted |-> FALSE,      \* force_close / streaming abort / stop: the stream may end mid-PUBLISH
     cmdBytes |-> 0, cmdFailed |-> FALSE, cmdOther |-> FALSE,
+    dead |-> {},            \* streamed sends whose PUBLISH header was never written (the send failed)
+    deadChunk |-> FALSE,    \* the current command feeds a chunk to such a stream
     ended |-> FALSE ]
 
 Fail(m, why) == IF m.bad = "none" THEN [m EXCEPT !.bad = why] ELSE m
@@ -84,7 +86,7 @@ Parse(m) ==
                       ELSE Parse(m1)
 
 CmdEnd(m) ==
-  LET m1 == [m EXCEPT !.cmdBytes = 0, !.cmdFailed = FALSE, !.cmdOther = FALSE] IN
+  LET m1 == [m EXCEPT !.cmdBytes = 0, !.cmdFailed = FALSE, !.cmdOther = FALSE, !.deadChunk = FALSE] IN
   IF m.cmdFailed /\ ~m.cmdOther /\ m.cmdBytes > 0 /\ ~m.aborted
     THEN Fail(m1, "C08:failed-send-left-bytes-behind")
     ELSE m1
@@ -93,10 +95,13 @@ Step(m, ev) ==
   CASE ev.e = "reset" -> [Init EXCEPT !.ver = ev.q]
     [] m.ended -> m
     [] ev.e = "out_raw" ->
-         Parse([m EXCEPT !.buf = @ \o ev.b, !.cmdBytes = @ + Len(ev.b)])
+         IF m.deadChunk /\ ~m.cmdOther
+           THEN Fail(m, "C08:payload-bytes-written-for-a-publish-whose-header-was-never-sent")
+           ELSE Parse([m EXCEPT !.buf = @ \o ev.b, !.cmdBytes = @ + Len(ev.b)])
+    [] ev.e = "send_call" /\ ev.k = "chunk" -> [m EXCEPT !.deadChunk = (ev.id \in m.dead)]
     [] ev.e = "cmd" -> CmdEnd(m)
     [] ev.e = "send_done" ->
-         IF ev.k \in {"Encode", "PacketIdInUse"} THEN [m EXCEPT !.cmdFailed = TRUE] ELSE m
+         IF ev.k \in {"Encode", "PacketIdInUse"} THEN [m EXCEPT !.cmdFailed = TRUE, !.dead = @ \cup {ev.s}] ELSE m
     [] ev.e \in {"h_end", "in", "settled", "release", "receipt_drop", "ctl"} ->
          \* something else may legitimately have written during this command
          LET m1 == [m EXCEPT !.cmdOther = TRUE] IN
